@@ -246,10 +246,12 @@ where
                                     return Ok(Some(right));
                                 }
                             }
-                            t => Err(format!("Association created with non-symbol type {:?} on pair left.", t))?,
+                            // pair keyed by something other than a symbol, not an association
+                            _ => {}
                         }
                     }
-                    t => Err(format!("Association created with non-pair type {:?}.", t))?,
+                    // item without a key (or an unused slot), not an association
+                    _ => {}
                 },
             }
             
